@@ -13,7 +13,8 @@ RULE = ("real round trip: a generated SpecSet under a HostContext (text file, ra
         "per-item command, container file/command through a harness execution context that emulates the engine, in-memory "
         "DatasourceProvider, failing datasources) with save_as variants (none, rename, directory form, leading '/'), "
         "persisted by Hydration.make_persister during dr.run and loaded into a fresh Broker by "
-        "hydration.initialize_broker; contents are Unicode lines with ids, empty lines anywhere, 0-3 trailing empty lines "
+        "hydration.initialize_broker (one archive in four additionally by a fresh interpreter that re-creates only the spec "
+        "classes; both views are compared provider by provider); contents are Unicode lines with ids, empty lines anywhere, 0-3 trailing empty lines "
         "and long lines; then for every archive every metadata entry x {data file deleted, metadata truncated at each "
         "quarter, non-JSON, JSON of the wrong shape, unknown component name, null results, entry replaced by a directory} "
         "plus random subsets is corrupted and the archive re-loaded; one evaluation = one load (clean or corrupted); "
@@ -21,7 +22,7 @@ RULE = ("real round trip: a generated SpecSet under a HostContext (text file, ra
 ASSUMPTIONS = [
     "lines contain no str.splitlines() break characters, no carriage return and no lone surrogates",
     "loaded content is compared with the host provider's content at persist time (not with the source file), up to one trailing empty line",
-    "a fresh interpreter is simulated by a fresh Broker in the same process (component look-up by name uses the live registry)",
+    "most loads use a fresh Broker in the collecting process (component look-up by name uses the live registry); every archive of a share (1 in 4) is also loaded by a fresh interpreter that re-creates only the spec classes, and both views are compared",
     "container engines are emulated by a HostContext subclass that maps '<engine> exec <id> <cmd>' to the scratch root",
 ]
 REACH = [
@@ -44,7 +45,8 @@ REACH = [
 ]
 PLAN = {
     "quick": {"shards": 8, "cases": 42, "timeout_s": 900, "min_evaluations": 7500,
-              "min_counters": {"providers_compared": 60000, "corruptions_applied": 6000, "archives_written": 300, "failed_components_checked": 120}},
+              "min_counters": {"providers_compared": 60000, "corruptions_applied": 6000, "archives_written": 300, "failed_components_checked": 120,
+                               "archives_loaded_by_a_fresh_interpreter": 40}},
     "thorough": {"shards": 16, "cases": 300, "timeout_s": 3300, "min_evaluations": 100000,
                  "min_counters": {"providers_compared": 1000000}},
 }
@@ -395,6 +397,7 @@ def run_case(spec, ctx):
                     ctx.violation("failed-component-persisted-without-errors", {"spec": k, "doc": repr(rec[1])[:300]})
         # ---- clean load ----------------------------------------------------
         b2 = load_and_compare(set(), "none")
+        loaded_view = dict((k, b2.get(p_)) for k, p_ in enumerate(pts)) if b2 is not None else {}
         if b2 is not None:
             del reinvoked[:]
             try:
@@ -406,6 +409,52 @@ def run_case(spec, ctx):
                     ctx.violation("loaded-spec-collected-again", {"spec": k, "kind": spec["specs"][k]["kind"]})
             ctx.count("reevaluations_checked")
             ctx.count("specs_recollected_because_absent", len(reinvoked))
+        # ---- the same archive loaded by a fresh interpreter ----------------
+        if b2 is not None and spec["subset_seed"] % 4 == 0:
+            import subprocess
+            job = os.path.join(base, "child_job.json")
+            with open(job, "w") as f:
+                json.dump({"spec": spec, "root": root, "uid": uid, "modname": modname, "out": out}, f)
+            env = dict(os.environ)
+            try:
+                cp = subprocess.run([sys.executable, "-m", "vpmon.props.c11", "--child-load", job], env=env, stdout=subprocess.PIPE,
+                                    stderr=subprocess.PIPE, timeout=300)
+                doc = json.loads(cp.stdout.decode()) if cp.returncode == 0 else None
+            except (subprocess.TimeoutExpired, ValueError):
+                cp, doc = None, None
+            if doc is None:
+                ctx.count("harness_errors")
+                ctx.sets.setdefault("harness_error_texts", set()).add("child load failed: %s" % (cp.stderr.decode("utf-8", "replace")[-600:] if cp else "timeout"))
+            elif doc.get("raised"):
+                ctx.violation("loading-the-archive-raised", {"where": "fresh interpreter", "exc": doc["raised"][:300]})
+            else:
+                ctx.count("archives_loaded_by_a_fresh_interpreter")
+                for k, p_ in enumerate(pts):
+                    mine = loaded_view[k]          # as loaded, before the re-evaluation above filled in absent specs
+                    theirs = doc["points"].get(str(k))
+                    if (mine is None) != (theirs is None):
+                        ctx.violation("fresh-interpreter-loads-a-different-set-of-specs", {"spec": k, "kind": spec["specs"][k]["kind"],
+                                                                                            "collecting_process": mine is not None, "fresh_interpreter": theirs is not None})
+                        continue
+                    if mine is None:
+                        continue
+                    ml = mine if isinstance(mine, list) else [mine]
+                    if isinstance(mine, list) != theirs["multi"] or len(ml) != len(theirs["items"]):
+                        ctx.violation("fresh-interpreter-loads-a-different-shape", {"spec": k, "kind": spec["specs"][k]["kind"]})
+                        continue
+                    for g, t in zip(ml, theirs["items"]):
+                        ctx.count("providers_compared_across_processes")
+                        try:
+                            c = g.content
+                        except Exception as ex:
+                            c = "RAISED %s" % type(ex).__name__
+                        if isinstance(c, bytes):
+                            c = {"bytes": c.decode("latin-1")}
+                        if _j(c) != _j(t["content"]) or g.relative_path != t["relative_path"] or _j(g.cmd) != _j(t["cmd"]) or _j(g.args) != _j(t["args"]) \
+                                or type(g).__name__ != t["cls"]:
+                            ctx.violation("fresh-interpreter-loads-different-content", {
+                                "spec": k, "kind": spec["specs"][k]["kind"], "collecting_process": [type(g).__name__, g.relative_path, g.cmd, repr(c)[:200]],
+                                "fresh_interpreter": [t["cls"], t["relative_path"], t["cmd"], repr(t["content"])[:200]]})
         # ---- corruption enumeration ---------------------------------------
         import random
         rng = random.Random(spec["subset_seed"])
@@ -509,6 +558,40 @@ def run_case(spec, ctx):
         shutil.rmtree(base, ignore_errors=True)
 
 
+def child_load(job_path):
+    """fresh interpreter: re-create the spec classes only (nothing is collected), load the archive, print what it holds"""
+    import logging
+    logging.disable(logging.CRITICAL)
+    with open(job_path) as f:
+        job = json.load(f)
+    from insights.core import hydration
+    sys.modules[job["modname"]] = types.ModuleType(job["modname"])
+    pts = build_specset(job["spec"], job["root"], job["uid"], job["modname"], [], [])
+    res = {"points": {}}
+    try:
+        ctx2, b2 = hydration.initialize_broker(job["out"])
+    except Exception as ex:
+        res["raised"] = repr(ex)
+        sys.stdout.write(json.dumps(res))
+        return
+    for k, p in enumerate(pts):
+        v = b2.get(p)
+        if v is None:
+            res["points"][str(k)] = None
+            continue
+        items = []
+        for g in (v if isinstance(v, list) else [v]):
+            try:
+                c = g.content
+            except Exception as ex:
+                c = "RAISED %s" % type(ex).__name__
+            if isinstance(c, bytes):
+                c = {"bytes": c.decode("latin-1")}
+            items.append({"content": c, "relative_path": g.relative_path, "cmd": g.cmd, "args": json.loads(_j(g.args)), "cls": type(g).__name__})
+        res["points"][str(k)] = {"multi": isinstance(v, list), "items": items}
+    sys.stdout.write(json.dumps(res))
+
+
 def _shares_files(meta_of, k, victim_k):
     """True iff entry k points at a data file that entry victim_k also points at"""
     if victim_k is None or k not in meta_of:
@@ -523,3 +606,8 @@ def _shares_files(meta_of, k, victim_k):
 
 def _j(x):
     return json.dumps(x, default=list, sort_keys=True)
+
+
+if __name__ == "__main__":
+    if len(sys.argv) == 3 and sys.argv[1] == "--child-load":
+        child_load(sys.argv[2])
